@@ -14,12 +14,18 @@ CD = rt.CD_SIZE
 INT_MIN = -2147483648
 BUDGET = 8000
 
-START_CLASSES = ["null", "valid", "valid-large", "small", "tiny", "neg-size", "zero-size", "intmin-size"]
+START_CLASSES = ["null", "valid", "valid-large", "small", "tiny", "neg-size", "zero-size", "intmin-size",
+                 "null-stale-size", "null-neg-size"]
 
 
 def start_line(rng, cls):
     if cls == "null":
         return "raobj 2 -1 0", None
+    if cls == "null-stale-size":
+        # the caller freed a larger block of its own, reset the pointer and kept the size variable
+        return "raobj 2 -1 %d" % rng.choice([CD + 1, 40960, 65536, 2 ** 31 - 1]), None
+    if cls == "null-neg-size":
+        return "raobj 2 -1 %d" % rng.choice([-1, INT_MIN]), None
     if cls == "valid":
         return "raobj 2 %d %d" % (CD, CD), CD
     if cls == "valid-large":
@@ -139,7 +145,7 @@ def do_histories(args):
                 if faulted:
                     acc.count("faulted_calls")
                 if d == "0":
-                    if not (faulted and cur == "null"):
+                    if not (faulted and cur.startswith("null")):
                         viol("data-null", "*data is NULL after the call")
                     continue
                 if blk < 0:
